@@ -139,6 +139,7 @@ class Pre:
         else:
             self.want_mode = 0o666 & ~case.get('umask', 0o022)
         self.body_raises = S.body_raises(case)
+        self.body_closes = any(st[0] == 'close' for st in case['body'][:S.steps_before_raise(case)])
         if case.get('reuse'):
             self.dest_present = self.dest_present or self.dest_data is not None
             self.part_present = self.part_present or self.part_data is not None
@@ -164,7 +165,9 @@ def judge(case, pre, r, faults, out, step, second_party=None, retry=True):
     want_dest, want_mode = pre.dest_data, pre.dest_mode
     if second_party == 'dest':
         want_dest, want_mode = b'SECOND PARTY', 0o640
-    expected_failure = (pre.body_raises or pre.refused_dest or pre.refused_part
+    # a body that closes the file it was handed: the save may fail (loudly, cleanly) or still complete
+    failing_body = pre.body_raises or (pre.body_closes and r.exc is not None)
+    expected_failure = (failing_body or pre.refused_dest or pre.refused_part
                         or (second_party == 'dest' and not pre.overwrite) or second_party == 'part'
                         or ('link' in pre.env and not pre.overwrite))
 
@@ -202,12 +205,20 @@ def judge(case, pre, r, faults, out, step, second_party=None, retry=True):
         return None
 
     # an exception escaped
-    if published and pre.body_raises:
+    if published and failing_body:
         return out.fail('dest-changed', step,
                         'the body raised (%r) but the part file was published all the same: destination now %s, was %s'
                         % (r.exc, _fmt(dest_now), _fmt(want_dest)), **sig)
     if published:
-        # B7: failure after publication: the new content must be in place and complete
+        # B7: failure after publication: the new content must be in place and complete ...
+        named = [f for f in faults if f[0] in ('open', 'chmod', 'raw.write', 'fsync', 'raw.close', 'rename', 'link')
+                 and f[2][0] in ('errno', 'disk-full')]
+        if named:
+            # ... and the failure must not be one of the steps C05 names: an error there means the save did
+            # not complete, so the destination must be what it was (only clean-up after the commit may fail late)
+            return out.fail('dest-changed', step,
+                            'the operating system reported an error at %s and the caller got %r, but the destination had '
+                            'already been replaced: was %s, now %s' % (named[0][0], r.exc, _fmt(want_dest), _fmt(dest_now)), **sig)
         if dest_now != pre.new:
             return out.fail('dest-changed', step,
                             'an exception escaped after publication and the destination holds %s, not %s'
@@ -246,7 +257,7 @@ def judge(case, pre, r, faults, out, step, second_party=None, retry=True):
         # an immediate fault-free retry must succeed unless it is legitimately refused
         fs.full = False
         c2 = dict(case)
-        c2['body'] = [s for s in case['body'] if s[0] != 'raise']
+        c2['body'] = [s for s in case['body'] if s[0] not in ('raise', 'close')]
         r2 = S.run_save(c2, simfs.Plan(), None, fs=fs)
         refused = r2.exc is not None and not pre.overwrite and (
             fs.lexists(pre.dest) or 'link' in pre.env)
@@ -266,6 +277,8 @@ def _why(pre, faults, second_party):
     parts = []
     if pre.body_raises:
         parts.append('the body raised')
+    elif pre.body_closes:
+        parts.append('the body closed the file')
     if pre.refused_dest:
         parts.append('overwrite=False and the destination exists')
     if pre.refused_part:
